@@ -105,6 +105,8 @@ def gen(seed, run, sub="clean", tier="quick"):
     if r.random() < 0.06:
         ops.append(["signal_other"])
     explicit = True if sub == "clean" else (r.random() < 0.5)
+    if explicit and sub == "clean" and cfg["boot"] >= 1.0 and r.random() < 0.3:
+        ops.append(["connect_timeout", r.choice([0.05, 0.3])])      # gives up before the device has booted
     if explicit:
         ops.append(["connect"])
     if sub == "clean":
@@ -289,6 +291,24 @@ def execute(scn, guide=None, keep=False, observer=None):
                                  type(e).__name__))
                     if lost["fired"]:
                         state["stopped_after_loss"] = True
+            elif op[0] == "connect_timeout":
+                # the first connection attempt times out (device still booting); the caller retries
+                w.set_timeout(op[1])
+                try:
+                    w.connect()
+                    k.ev("connect-timeout-attempt", "connected")
+                    try:
+                        w.disconnect(False)
+                    except SimAbort:
+                        raise
+                    except BaseException:
+                        pass
+                except SimAbort:
+                    raise
+                except BaseException as e:
+                    k.ev("connect-timeout-attempt", type(e).__name__)
+                    k.probe("c16.connect_timed_out_then_retried")
+                w.set_timeout(30.0)
             elif op[0] == "signal_other":
                 # another writer object of the same process handled SIGINT earlier
                 other = mk_writer()
@@ -670,7 +690,7 @@ class C16Lane(Lane):
                 ready = prev == "connect"
             elif op[0] == "disconnect":
                 ready = False
-            elif op[0] == "signal_other":
+            elif op[0] in ("signal_other", "connect_timeout"):
                 continue
             elif op[0] in ("write", "idle_error", "timeout") and not ready:
                 return False
